@@ -197,6 +197,10 @@ def c19_scenarios(tier, seed):
                 # what floods the port: requests the server answers, only datagrams it refuses (random bytes, well-formed
                 # messages with a nonce of the wrong length), or both
                 s["signal"]["flood_kind"] = ["valid", "junk", "mixed"][nflood % 3]
+                # batch sizes that do not divide 1 024 as well (a per-wake-up bound counted in datagrams must still fire), and
+                # enough senders that every worker's queue stays non-empty
+                s["batch_size"] = [3, 64, 10, 64][(nflood // 3) % 4] if nflood % 3 == 0 else [64, 7][nflood % 2]
+                s["signal"]["senders"] = min(12, max(4, 3 * w))
                 nflood += 1
             out.append(s)
             i += 1
@@ -219,6 +223,9 @@ def c19_scenarios(tier, seed):
     # the signal
     out.append(scen(730, num_workers=2, health_check=True, hc_conns=3, hc_hold=3, probe_socks=8, probe_rounds=1,
                     signal={"sig": "INT", "mode": "idle", "delay_ms": 300, "limit_ms": 5000}))
+    # a server that has been completely idle for a long time when the signal comes (an idle back-off of the poll timeout
+    # would have grown to many seconds by then)
+    out.append(scen(740, num_workers=2, probe_socks=8, probe_rounds=1, signal={"sig": "INT", "mode": "idle", "delay_ms": 13600, "limit_ms": 5000}))
     # the smallest status interval the configuration accepts (0 s): the reporter is due at every pass
     out.append(scen(720, num_workers=2, client_stats=True, status_interval=0, probe_socks=8, probe_rounds=1, load={"clients": 4, "requests": 100},
                     signal={"sig": "TERM", "mode": "load", "delay_ms": 1500, "limit_ms": 5000}))
@@ -244,7 +251,9 @@ def c18_scenarios(tier, seed):
                             health_check=(True if i % 2 == 1 else None), hc_conns=(6 if i % 2 == 1 else None), hc_reset=(5 if i % 4 == 1 else None),
                             # ... and the statistics timers at their extremes: the smallest interval the configuration accepts (0 s)
                             # and 1 s, instead of the default ten minutes
-                            status_interval=([0, 1][(i // 3) % 2] if i % 3 == 2 else None)))
+                            # (0 s makes every worker publish continuously: only with the small loads, or the hook trace of a long
+                            # run grows beyond what the harness can hold)
+                            status_interval=([0 if cnum <= 8 else 1, 1][(i // 3) % 2] if i % 3 == 2 else None)))
             i += 1
     # stalled bursts: full batches wait for the workers (all of one protocol, and mixed), several in a row
     for k, (w, b) in enumerate([(1, 64), (2, 64), (1, 7)] if tier == "quick" else [(1, 64), (2, 64), (4, 64), (1, 7), (1, 33), (16, 64)]):
